@@ -617,4 +617,6 @@ def _scalar_expr(F, t) -> bool:
         return 'decimal.Decimal' in F.ext_bases(t[1])
     if t[0] == 'fstr':
         return True
+    if t[0] == 'binop' and len(t) == 4:
+        return _scalar_expr(F, t[2]) and _scalar_expr(F, t[3])     # str + str, str * n, str % scalar: scalars again
     return False
